@@ -259,7 +259,11 @@ func (a Account) MarshalText() ([]byte, error) { return []byte(a.String()), nil 
 
 // UnmarshalText implements encoding.TextUnmarshaler.
 func (a *Account) UnmarshalText(b []byte) error {
-	n, err := hex.Decode(a[:], bytes.TrimPrefix(b, []byte("ed25519:")))
+	b = bytes.TrimPrefix(b, []byte("ed25519:"))
+	if len(b) > len(a)*2 {
+		return fmt.Errorf("decoding ed25519:<hex> failed: input too long")
+	}
+	n, err := hex.Decode(a[:], b)
 	if err != nil {
 		return fmt.Errorf("decoding ed25519:<hex> failed: %w", err)
 	} else if n < len(a) {
